@@ -73,8 +73,8 @@ def run(ctx):
         ca, pa = scan.check_scan(ctx, "definition", defn, sc, where)
         owner = ("param", defn.local_name(2))
         ctx.check(sc.owner == owner and sc.board == SELF, "definition:binding", "the definition does not examine king(colour parameter) on its own board", where)
-        ctx.check(sc.pre.get(ca) == ("bbconst", 0) and sc.pre.get(pa) == ("bbconst", 0), "definition:start-empty",
-                  "checkers/pinned do not start empty in the definition: %s" % {k: sym.show(v)[:40] for k, v in sc.pre.items()}, where)
+        ctx.check(sc.pre.get(pa) == ("bbconst", 0), "definition:pinned-starts-empty",
+                  "pinned does not start empty in the definition: %s" % {k: sym.show(v)[:40] for k, v in sc.pre.items()}, where)
         K = sc.K
         enemy = colors(("cnot", owner))
         for p in dps:
@@ -85,11 +85,14 @@ def run(ctx):
             if not ctx.check(ok, "definition:ret-shape", "the definition does not return a pair", where):
                 continue
             c_expr, p_expr = r[1]
-            hvc = ("hv", "calculate_checkers_and_pins", ca, sc.header) if ca else None
-            # generic: checkers = acc | knight term | pawn term
+            # checkers = scan result ∪ (whatever was there before the scan) ∪ (whatever is added after): the non-scan
+            # part, in any order, must be exactly the knight and pawn terms
             parts = scan.flatten(c_expr)
             hv = [x for x in parts if x[0] == "hv"]
             rest = [x for x in parts if x[0] != "hv"]
+            pre_c = sc.pre.get(ca)
+            if pre_c is not None and pre_c != ("bbconst", 0):
+                rest.append(pre_c)
             want = [AND(("knight", K), enemy, pieces("Knight")), AND(("pawnatt", K, owner), enemy, pieces("Pawn"))]
             okc = len(hv) == 1 and hv[0][2] == ca and len(rest) >= 1
             if okc:
@@ -98,8 +101,8 @@ def run(ctx):
                     got = ("or", got, x)
                 okc = setalg.equivalent(got, OR(*want))
             ctx.check(okc, "definition:non-slider-checkers",
-                      "besides the scan, checkers are not exactly enemy knights on knight_moves(king) and enemy pawns on pawn_attacks(king, owner): %s"
-                      % sym.show(c_expr)[:300], where, sample={"definition": "checkers = scan ∪ knights ∪ pawns", "pawn-attack colour": sym.show(owner)})
+                      "besides the scan, checkers are not exactly enemy knights on knight_moves(king) and enemy pawns on pawn_attacks(king, owner): %s (before the scan: %s)"
+                      % (sym.show(c_expr)[:300], sym.show(pre_c)[:200] if pre_c else None), where, sample={"definition": "checkers = scan ∪ knights ∪ pawns", "pawn-attack colour": sym.show(owner)})
             ctx.check(p_expr[0] == "hv" and p_expr[2] == pa, "definition:pinned-is-scan", "pinned is not exactly the scan's pin set: %s" % sym.show(p_expr)[:100], where)
         def_roles = (ca, pa)
 
